@@ -8,6 +8,7 @@
 From Coq Require Import List String NArith ZArith Bool Arith.
 From Piko Require Import Base.Maps Base.Strs Gossip.Types Gossip.Local Upstream.Balancer Upstream.Manager.
 From Piko Require Import UpstreamP.BalancerP UpstreamP.ManagerP UpstreamP.Statements.
+From Piko Require Gossip.Apply Cluster.Syncer GossipP.LocalP GossipP.WatchP ClusterP.FoldP Compose.EndToEnd.
 Import ListNotations.
 Open Scope string_scope. Open Scope list_scope. Open Scope nat_scope.
 
@@ -60,6 +61,27 @@ Theorem C05_witness_fixed : forall id g p a,
   gossip_live (ep_key "e") (m_gossip s) = Some "1" /\ advertised_count "e" s = Some 1%Z.
 Proof. exact c05_witness_fixed. Qed.
 
+(* ... and what the OTHER nodes make of it (Compose/EndToEnd.v, composing C05 with C02/C03, C14 and C04): once node
+   a's gossip view V of node b has caught up with b's own state O - the one b's manager writes - a's routing table
+   lists b as active, under its addresses, with a positive count for endpoint ep exactly when b's manager holds an
+   upstream registered for ep. *)
+Theorem C05_peers_routing_table_tells_the_truth :
+  forall addr_of (ss : Cluster.Syncer.sstate) (sh : GossipP.WatchP.shadow) (c : Gossip.Apply.cstate) (x : string) (V O : node_state) (ms : mstate),
+  ClusterP.FoldP.rel addr_of ss sh -> GossipP.WatchP.agree sh c -> x <> Cluster.Syncer.ss_local ss -> x <> Gossip.Apply.c_local c ->
+  lookup x (Gossip.Apply.c_nodes c) = Some V ->
+  (forall k, lookup k (n_ents V) = lookup k (n_ents O)) ->
+  n_left V = false -> n_unreach V = false ->
+  O = m_gossip ms -> minv ms ->
+  (forall k e, lookup k (n_ents O) = Some e -> e_int e = GossipP.LocalP.internal_key k) ->
+  (forall ep, (Z.of_nat (registered_count ep ms) < 2^63)%Z) ->
+  GossipP.LocalP.live O "proxy_addr" <> None -> GossipP.LocalP.live O "admin_addr" <> None ->
+  exists n, lookup x (Cluster.Syncer.ss_nodes ss) = Some n /\ Cluster.Syncer.cn_status n = Cluster.Syncer.SActive /\
+            Cluster.Syncer.cn_proxy n = fst (addr_of x) /\ Cluster.Syncer.cn_admin n = snd (addr_of x) /\
+            forall ep, (match lookup ep (Cluster.Syncer.cn_eps n) with Some k => (0 <? k)%Z | None => false end)
+                       = (0 <? registered_count ep ms)%nat.
+Proof. exact Compose.EndToEnd.routing_entry_is_managers_truth. Qed.
+
+Print Assumptions C05_peers_routing_table_tells_the_truth.
 Print Assumptions C05_counts_equal.
 Print Assumptions C05_advertised_iff_connected.
 Print Assumptions C05_refuted_pinned.
